@@ -312,6 +312,11 @@ func (*diff) collationChange(from, top, to []schema.Attr) schema.Change {
 	switch fromHas, topHas, toHas := sqlx.Has(from, &fromC), sqlx.Has(top, &topC), sqlx.Has(to, &toC); {
 	case !fromHas && !toHas:
 	case !fromHas:
+		// The table inherits its COLLATE from the schema. Hence, there
+		// is no change if the desired one is equal to the inherited one.
+		if topHas && toC.V == topC.V {
+			return noChange
+		}
 		return &schema.AddAttr{
 			A: &toC,
 		}
@@ -383,6 +388,11 @@ func (*diff) charsetChange(from, top, to []schema.Attr) schema.Change {
 	switch fromHas, topHas, toHas := sqlx.Has(from, &fromC), sqlx.Has(top, &topC), sqlx.Has(to, &toC); {
 	case !fromHas && !toHas:
 	case !fromHas:
+		// The table inherits its CHARSET from the schema. Hence, there
+		// is no change if the desired one is equal to the inherited one.
+		if topHas && toC.V == topC.V {
+			return noChange
+		}
 		return &schema.AddAttr{
 			A: &toC,
 		}
